@@ -25,7 +25,8 @@
 (* Containers (interchange and typed):                                     *)
 (*   [k |-> "seq", f |-> "list"|"tuple"|"deque"|"other", xs |-> <<..>>]    *)
 (*   [k |-> "map", f |-> "dict"|"defaultdict"|"ordereddict"|"counter"|     *)
-(*                       "proxy", ps |-> << <<key, val>>, .. >>]           *)
+(*                       "proxy" | "ddlist", ps |-> << <<key, val>>, .. >>]  *)
+(*        ("ddlist": a defaultdict whose factory is list - as INPUT data) *)
 (*   [k |-> "set", f |-> "set"|"frozenset", es |-> {..}]      (typed only) *)
 (* Typed-only scalars:                                                     *)
 (*   [k |-> "frac", q], [k |-> "dec", q, sp], [k |-> "date"|"time"|        *)
